@@ -62,6 +62,16 @@ def _digit_ranges():
 UNICODE_DIGIT_RANGES = _digit_ranges()
 
 
+JSON_DOCS = {
+    'jnum': ('3.0', 'n:12.5'), 'jqty': ('2.0', 'n:-3.2e+5 kW'), 'jint': ('3.0', 'n:42'), 'jinf': ('3.0', 'n:-INF'), 'jnan': ('2.0', 'n:NaN'),
+    'jstr': ('3.0', 's:he:llo'), 'jplain': ('2.0', 'plain text'), 'jmark': ('3.0', 'm:'), 'jna': ('3.0', 'z:'), 'jrem3': ('3.0', '-:'), 'jrem2': ('2.0', 'x:'),
+    'jref': ('3.0', 'r:abc-1.2 Display name'), 'jref0': ('2.0', 'r:a_b~c'), 'juri': ('3.0', 'u:http://a/b?c#d'), 'jbin': ('2.0', 'b:text/plain'),
+    'jdate': ('3.0', 'd:2020-02-29'), 'jtime2': ('3.0', 'h:12:34'), 'jtime3': ('2.0', 'h:12:34:56'), 'jtimef': ('3.0', 'h:23:59:59.123456'),
+    'jdt': ('3.0', 't:2021-03-04T05:06:07+05:30 Kolkata'), 'jdtz': ('2.0', 't:2021-03-04T05:06:07Z'), 'jdtf': ('3.0', 't:2021-03-04T05:06:07.125Z UTC'),
+    'jcoord': ('3.0', 'c:37.5,-122.25'), 'jxstr': ('3.0', 'x:Span:2020-01'), 'jhex': ('3.0', 'x:hex:dead01'),
+}
+
+
 def within(exc, chars_of):
     """line/column of a ZincParseException lie within the text it refers to ((0,0) = documented 'unknown')"""
     line, col = exc.line, exc.col
@@ -120,14 +130,19 @@ def run_doc(hz, ref, name, text, job, ex_factory):
                 # reference first (C03: paths where the reference rejects are outside the claim)
                 try:
                     with contextlib.redirect_stdout(io.StringIO()):
-                        R = ('ok', ref.parse_scalar(t, version) if scalar else ref.parse_document(t))
+                        if job.get('json'):
+                            R = ('ok', ref.decode_string(t, version == '3.0'))
+                        else:
+                            R = ('ok', ref.parse_scalar(t, version) if scalar else ref.parse_document(t))
                 except ref.RefReject as e:
                     R = ('reject', e.why)
-                if prop == 'C03' and R[0] != 'ok':
+                if prop in ('C03', 'C05') and R[0] != 'ok':
                     return ('ok',)
                 try:
                     with contextlib.redirect_stdout(io.StringIO()):
-                        if scalar:
+                        if job.get('json'):
+                            H = ('ok', sys.modules['hszinc.jsonparser'].parse_embedded_scalar(t, version=hz.Version(version)))
+                        elif scalar:
                             H = ('ok', hz.parse_scalar(t, mode=hz.MODE_ZINC, version=version))
                         else:
                             H = ('ok', hz.parse(t, mode=hz.MODE_ZINC, single=False))
@@ -136,7 +151,7 @@ def run_doc(hz, ref, name, text, job, ex_factory):
                 stats['reached'] += 1
                 if H[0] == 'exc':
                     e = H[1]
-                    if prop == 'C03':
+                    if prop in ('C03', 'C05'):
                         return ('cex', 'a well-formed text (accepted by the reference reader) is rejected: %s' % type(e).__name__, model())
                     if scalar:
                         if not isinstance(e, ValueError):
@@ -149,10 +164,10 @@ def run_doc(hz, ref, name, text, job, ex_factory):
                     return ('ok',)
                 # accepted
                 if R[0] == 'reject':
-                    if any(R[1].startswith(s) for s in STRUCTURAL):
+                    if prop == 'C09' and any(R[1].startswith(s) for s in STRUCTURAL):
                         return ('cex', 'structurally broken text accepted (reference: %s)' % R[1], model())
                     return ('ok',)
-                if prop == 'C03':
+                if prop in ('C03', 'C05'):
                     if scalar:
                         f = neutral.same(neutral.to_neutral(hz, H[1]), R[1], dict(zone_names=False, dt_instant=True))
                     else:
@@ -192,8 +207,8 @@ def run_job(job):
     import logging
     logging.disable(logging.CRITICAL)
     hz = tw.load()
-    ref = tw.zinc_ref(True)
-    docs = SCALAR_DOCS if job.get('scalar') else GRID_DOCS
+    ref = tw.json_ref(True) if job.get('json') else tw.zinc_ref(True)
+    docs = JSON_DOCS if job.get('json') else (SCALAR_DOCS if job.get('scalar') else GRID_DOCS)
     t0 = time.time()
     allc, tot = [], None
     for name in job['docs']:
@@ -215,7 +230,7 @@ def run_job(job):
 
 
 def mutated(job, c):
-    docs = SCALAR_DOCS if job.get('scalar') else GRID_DOCS
+    docs = JSON_DOCS if job.get('json') else (SCALAR_DOCS if job.get('scalar') else GRID_DOCS)
     text = docs[c['doc']][1] if job.get('scalar') else docs[c['doc']]
     if c['op'] == 'replace':
         return text[:c['pos']] + c['char'] + text[c['pos'] + 1:]
@@ -225,25 +240,31 @@ def mutated(job, c):
 def replay(hz, job, c):
     """plain-CPython replay of one counterexample (payload c = dict(doc,pos,op,char)); None = property holds"""
     import importlib
-    ref = importlib.import_module('vf.spec.zinc_ref')
+    ref = importlib.import_module('vf.spec.json_ref' if job.get('json') else 'vf.spec.zinc_ref')
     prop, scalar = job['prop'], job.get('scalar', False)
-    version = (SCALAR_DOCS[c['doc']][0]) if scalar else None
+    version = ((JSON_DOCS if job.get('json') else SCALAR_DOCS)[c['doc']][0]) if scalar else None
     t = mutated(job, c)
     ZPE = sys.modules['hszinc.zincparser'].ZincParseException
     try:
-        R = ('ok', ref.parse_scalar(t, version) if scalar else ref.parse_document(t))
+        if job.get('json'):
+            R = ('ok', ref.decode_string(t, version == '3.0'))
+        else:
+            R = ('ok', ref.parse_scalar(t, version) if scalar else ref.parse_document(t))
     except ref.RefReject as e:
         R = ('reject', e.why)
-    if prop == 'C03' and R[0] != 'ok':
+    if prop in ('C03', 'C05') and R[0] != 'ok':
         return None
     try:
         with contextlib.redirect_stdout(io.StringIO()):
-            H = ('ok', hz.parse_scalar(t, mode=hz.MODE_ZINC, version=version) if scalar else hz.parse(t, mode=hz.MODE_ZINC, single=False))
+            if job.get('json'):
+                H = ('ok', hz.parse_scalar(json.dumps(t), mode=hz.MODE_JSON, version=version))      # through the public API and real JSON text
+            else:
+                H = ('ok', hz.parse_scalar(t, mode=hz.MODE_ZINC, version=version) if scalar else hz.parse(t, mode=hz.MODE_ZINC, single=False))
     except Exception as e:
         H = ('exc', e)
     if H[0] == 'exc':
         e = H[1]
-        if prop == 'C03':
+        if prop in ('C03', 'C05'):
             return 'well-formed text %r rejected: %s: %s' % (t, type(e).__name__, str(e)[:120])
         if scalar:
             return None if isinstance(e, ValueError) else 'parse_scalar(%r) raised %s: %s' % (t, type(e).__name__, str(e)[:120])
@@ -253,10 +274,10 @@ def replay(hz, job, c):
             return 'parse(%r): ZincParseException line=%r col=%r outside the text' % (t, e.line, e.col)
         return None
     if R[0] == 'reject':
-        if any(R[1].startswith(s) for s in STRUCTURAL):
+        if prop == 'C09' and any(R[1].startswith(s) for s in STRUCTURAL):
             return 'structurally broken text %r accepted as %r (reference: %s)' % (t, H[1], R[1])
         return None
-    if prop == 'C03':
+    if prop in ('C03', 'C05'):
         if scalar:
             f = neutral.same(neutral.to_neutral(hz, H[1]), R[1], dict(zone_names=False, dt_instant=True))
         else:
@@ -268,10 +289,84 @@ def replay(hz, job, c):
     return None
 
 
+def json_forms(hz):
+    """concrete structural variants of a JSON grid x input forms; also: the caller's pre-decoded object is not modified"""
+    import copy
+    import importlib
+    ref = importlib.import_module('vf.spec.json_ref')
+    nested = {'meta': {'ver': '3.0'}, 'cols': [{'name': 'k'}], 'rows': [{'k': 'n:1'}]}
+    base = {'meta': {'ver': '3.0', 'dis': 's:x', 'mk': 'm:'}, 'cols': [{'name': 'a'}, {'name': 'b', 'unit': 's:m', 'flag': 'm:'}],
+            'rows': [{'a': 'n:1.5 kW', 'b': True}, {'b': 'plain'}, {'a': 5, 'b': 2.5}, {'a': None}]}
+    variants = {'base': base}
+    v = copy.deepcopy(base); del v['rows']; v['rows_missing'] = None; del v['rows_missing']; variants['rows_missing'] = v
+    v = copy.deepcopy(base); v['rows'] = None; variants['rows_null'] = v
+    v = copy.deepcopy(base); v['rows'] = []; variants['rows_empty'] = v
+    v = copy.deepcopy(base); v['rows'] = [{'a': ['n:1', 's:x', ['m:']], 'b': {'x': 'n:2', 'g': copy.deepcopy(nested)}}, {'a': copy.deepcopy(nested)}]; variants['nested3'] = v
+    v = copy.deepcopy(base); v['meta']['ver'] = '2.0'; v['rows'] = [{'a': 'x:', 'b': '-:'}]; variants['remove2'] = v
+    v = copy.deepcopy(base); v['meta']['g'] = copy.deepcopy(nested); v['cols'][0]['lst'] = ['n:1']; variants['meta_nested'] = v
+    fails = []
+    n = 0
+    for name, tree in variants.items():
+        try:
+            want = ref.decode_document(tree)
+        except ref.RefReject as e:
+            fails.append((name, 'reference rejects its own form: %s' % e))
+            continue
+        txt = json.dumps(tree)
+        forms = [('dict', copy.deepcopy(tree), True), ('str', txt, True), ('bytes', txt.encode('utf-8'), True),
+                 ('list', [copy.deepcopy(tree), copy.deepcopy(tree)], False), ('array_str', '[%s,%s]' % (txt, txt), False)]
+        for fname, form, single in forms:
+            n += 1
+            before = copy.deepcopy(form)
+            try:
+                with contextlib.redirect_stdout(io.StringIO()):
+                    got = hz.parse(form, mode=hz.MODE_JSON, single=single)
+            except Exception as e:
+                fails.append(('%s/%s' % (name, fname), 'raised %s: %s' % (type(e).__name__, str(e)[:100])))
+                continue
+            if form != before:
+                fails.append(('%s/%s' % (name, fname), 'the caller\'s input object was modified'))
+            grids = [got] if single else got
+            if not single and len(grids) != 2:
+                fails.append(('%s/%s' % (name, fname), 'grid count %d' % len(grids)))
+                continue
+            for g in grids:
+                f = neutral.same(neutral.to_neutral(hz, g), want[0], dict(zone_names=False, dt_instant=True, ordered_dict=False))
+                if f is not True:
+                    fails.append(('%s/%s' % (name, fname), 'decoded as %r, reference %r' % (neutral.to_neutral(hz, g), want[0])))
+                    break
+            # parsing the same object twice gives the same result
+            if fname in ('dict', 'list'):
+                with contextlib.redirect_stdout(io.StringIO()):
+                    again = hz.parse(form, mode=hz.MODE_JSON, single=single)
+                a2 = [again] if single else again
+                if [neutral.to_neutral(hz, x) for x in a2] != [neutral.to_neutral(hz, x) for x in grids]:
+                    fails.append(('%s/%s' % (name, fname), 'second parse of the same object differs'))
+    return n, fails
+
+
+def replay_forms(hz, job, c):
+    n, fails = json_forms(hz)
+    for name, msg in fails:
+        if name == c:
+            return '%s: %s' % (name, msg)
+    return None
+
+
 if __name__ == '__main__':
     job = json.loads(sys.argv[1])
     try:
-        res = run_job(job)
+        if job.get('forms'):
+            import logging
+            logging.disable(logging.CRITICAL)
+            sys.path.insert(0, common.REPO)
+            with contextlib.redirect_stdout(io.StringIO()):
+                import hszinc
+            n, fails = json_forms(hszinc)
+            res = dict(job=job, status='done', cex=[], ncex=0, forms_run=n, forms_failures=fails, wall_s=0.0, functions=[], conc_calls=[],
+                       stats=dict(explorations=0, paths=n, checks=0, solver_s=0.0, nontrivial=n, errors=[], reached=n, budget=0))
+        else:
+            res = run_job(job)
     except BaseException:
         res = dict(job=job, status='fault', error=traceback.format_exc()[-2000:])
     sys.stdout.write('\nMUT-RESULT ' + json.dumps(res, default=str) + '\n')
